@@ -396,6 +396,185 @@ def shard(col, reg_name, mode, lo, hi, tier):
     col.note(f"registry_{reg_name}", reg.describe())
 
 
+# ---------------------------------------------------------------- conformance leg: real traces
+class _RealReg:
+    """What Inventory / Checker need from a registry, over a real corpus module."""
+
+    def __init__(self, name, props):
+        self.name = name
+        self.sp = props
+        self.pred_ids = sorted(props.existing_predicates)
+        self.branchless = sorted(props.branch_less_code_objects)
+        self.code_objects = sorted(props.existing_code_objects)
+
+
+def _make_replay_executor(props, module_provider):
+    from pynguin.testcase.execution import AbstractTestCaseExecutor
+
+    class ReplayExecutor(AbstractTestCaseExecutor):
+        """Answers with the stored REAL execution result of the (deterministic) test case."""
+
+        def __init__(self):
+            self._by_id = {}
+            self.executions = 0
+
+        def attach(self, test_case, result):
+            self._by_id[id(test_case)] = (test_case, result)
+
+        def forget(self):
+            self._by_id.clear()
+
+        @property
+        def module_provider(self):
+            return module_provider
+
+        def add_observer(self, observer):
+            raise NotImplementedError
+
+        def clear_observers(self):
+            pass
+
+        def temporarily_add_observer(self, observer):
+            import contextlib
+            return contextlib.nullcontext()
+
+        def add_remote_observer(self, remote_observer):
+            raise NotImplementedError
+
+        def clear_remote_observers(self):
+            pass
+
+        def temporarily_add_remote_observer(self, remote_observer):
+            import contextlib
+            return contextlib.nullcontext()
+
+        @property
+        def subject_properties(self):
+            return props
+
+        def execute(self, test_case):
+            owner, result = self._by_id[id(test_case)]
+            assert owner is test_case
+            self.executions += 1
+            return result
+
+    return ReplayExecutor()
+
+
+class _RealLab:
+    def __init__(self, executor, tests, results):
+        import pynguin.ga.testcasechromosome as tcc
+        import pynguin.ga.testsuitechromosome as tsc
+
+        self.executor, self.tests, self.results = executor, tests, results
+        self._tcc, self._tsc = tcc, tsc
+
+    def chromosome(self, i):
+        t = self.tests[i].clone()
+        self.executor.attach(t, self.results[i])
+        return self._tcc.TestCaseChromosome(test_case=t)
+
+    def suite(self, chromosomes):
+        suite = self._tsc.TestSuiteChromosome()
+        for c in chromosomes:
+            suite.add_test_case_chromosome(c)
+        return suite
+
+    def suite_of_specs(self, idxs):
+        return self.suite([self.chromosome(i) for i in idxs])
+
+
+class RealChecker(Checker):
+    def bad(self, fname, check, sig, what, specs, level):
+        lab = self.lab
+        rank = 1000 * len(specs) + sum(lab.tests[i].size() for i in specs)
+        fp = f"C10|{fname}|{check}|{self.regclass}|{sig}"
+        self.col.violation(fp, f"corpus module {self.reg.name}, {level} of real test case(s) "
+                           + " / ".join(lab.tests[i].to_code().strip().replace("\n", "; ") for i in specs)
+                           + f": {fname}: {what}",
+                           {"level": "real", "module": self.reg.name, "function": fname,
+                            "tests": [lab.tests[i].to_code() for i in specs]}, rank=rank)
+
+
+def conformance_problems(props, trace):
+    """Does a REAL trace lie inside the abstract trace domain of mc.tracedomain?"""
+    out = []
+    ex, td_, fd = set(trace.executed_predicates), set(trace.true_distances), set(trace.false_distances)
+    if not (ex == td_ == fd):
+        out.append("predicate-without-both-distances")
+    for pid in ex & td_ & fd:
+        t, f = trace.true_distances[pid], trace.false_distances[pid]
+        if not (t >= 0 and f >= 0):   # also false for NaN
+            out.append("negative-or-nan-distance")
+        elif min(t, f) != 0.0:
+            out.append("no-zero-distance")
+        elif trace.executed_predicates[pid] == 1 and t == 0.0 and f == 0.0:
+            out.append("both-zero-after-one-evaluation")
+        if pid not in props.existing_predicates:
+            out.append("unregistered-predicate")
+        elif props.existing_predicates[pid].code_object_id not in trace.executed_code_objects:
+            out.append("predicate-of-unexecuted-code-object")
+    if not set(trace.executed_code_objects) <= set(props.existing_code_objects):
+        out.append("unregistered-code-object")
+    if not set(trace.covered_line_ids) <= set(props.existing_lines):
+        out.append("unregistered-line")
+    if not set(trace.checked_lines) <= set(props.existing_lines):
+        out.append("unregistered-checked-line")
+    return out
+
+
+def shard_real(col, module, limit):
+    """The same oracle on REAL execution results (population of a corpus module), and the check
+    that every real trace lies inside the abstract domain the exhaustive leg enumerates."""
+    import logging
+    import shutil
+    import tempfile
+
+    from mc import pipeline
+
+    logging.disable(logging.CRITICAL)
+    scratch = tempfile.mkdtemp(prefix="c10_", dir="/dev/shm")
+    try:
+        pipe = pipeline.Pipe(module, scratch, coverage=("BRANCH", "LINE", "CHECKED"))
+        props = pipe.sut.props
+        tests, _ = pipe.population(bound=1, limit=limit)
+        results = [pipe.executor.execute(t) for t in tests]
+        for t, r in zip(tests, results):
+            col.count("real_traces")
+            col.count("traces_validated_against_domain")
+            probs = conformance_problems(props, r.execution_trace)
+            for p in probs:
+                col.distinct("domain_escapes", (module, p))
+                col.note("domain_escape_example", f"{module}: {p}: {t.to_code()!r}")
+        reg = _RealReg(module, props)
+        executor = _make_replay_executor(props, pipe.executor.module_provider)
+        lab = _RealLab(executor, tests, results)
+        chk = RealChecker(col, reg, lab, Inventory(reg, executor))
+        # trace-distinct representatives for pairs
+        reps, seen = [], set()
+        from mc import tracedomain as td
+        for i, r in enumerate(results):
+            key = td.projection(r.execution_trace)
+            if key not in seen:
+                seen.add(key)
+                reps.append(i)
+        for i in range(len(tests)):
+            chk.test_case(i)
+            chk.suite([i])
+            col.distinct("real_cases", (module, td.projection(results[i].execution_trace)))
+        for i, j in itertools.combinations(reps, 2):
+            col.count("real_suites_of_2")
+            chk.suite([i, j], cache=False)
+        for trio in itertools.islice(itertools.combinations(reps, 3), 400):
+            col.count("real_suites_of_3")
+            chk.suite(list(trio), cache=False)
+        col.note(f"real_{module}", {"tests": len(tests), "trace_distinct": len(reps),
+                                    "predicates": len(reg.pred_ids), "branchless": len(reg.branchless)})
+        pipe.close()
+    finally:
+        shutil.rmtree(scratch, ignore_errors=True)
+
+
 # ---------------------------------------------------------------- entry points
 def _inventory_guard(ctx):
     from mc import tracedomain as td
@@ -437,6 +616,16 @@ def run(ctx):
             tasks.append((name, "triples", lo, min(ntr, lo + 3000), ctx.tier))
     random.Random(ctx.seed).shuffle(tasks)
     par.run_shards("props.c10_fitness_agree:shard", tasks, ctx.workers, ctx)
+    # conformance leg: the oracle on real execution results + real traces lie in the abstract domain
+    real_modules = ["numeric", "shapes", "raising"] if ctx.quick else \
+        ["numeric", "shapes", "raising", "containers", "strings", "lambdas"]
+    par.run_shards("props.c10_fitness_agree:shard_real",
+                   [(m, 60 if ctx.quick else 150) for m in real_modules], ctx.workers, ctx)
+    escapes = sorted(ctx.col.sets.get("domain_escapes", ()))
+    ctx.require(not escapes, f"real traces escape the abstract trace domain: {escapes} "
+                f"({ctx.col.notes.get('domain_escape_example')})")
+    ctx.require(ctx.col.counters.get("real_traces", 0) >= 40, "vacuous: too few real traces")
+    ctx.note("real_modules", real_modules)
     ctx.require(ctx.col.counters.get("traces", 0) == total,
                 f"enumerated {ctx.col.counters.get('traces', 0)} traces, expected {total}")
     ctx.require(len(ctx.col.sets.get("outcomes", ())) > 40, "vacuous: too few distinct outcomes")
@@ -463,6 +652,12 @@ def run(ctx):
 def replay(ctx, data):
     from mc import tracedomain as td
 
+    if data.get("level") == "real":
+        from mc.ctx import Collector
+        col = Collector()
+        shard_real(col, data["module"], 150)
+        ctx.merge(col)
+        return
     reg = td.build_registry(data["registry"])
     lab = td.Lab(reg)
     chk = Checker(ctx.col, reg, lab, Inventory(reg, lab.executor))
